@@ -131,6 +131,8 @@ structure Cfg where
   missingValue : Bool := false   -- before 546d576: `}` while a member name waits for its value was accepted
   tkOld : Bool := false          -- before f233b47: sen.Tokenizer had no quoteDelim, no C-comment cases, no
                                  -- `continue` in commentEnd
+  -- the code AS IT IS (finding C07sen-tokenizer-exkey-not-reset; to be switched off when it is repaired):
+  keepExkey : Bool := true       -- Tokenizer.Parse/Load do not reset `exkey`
 
 structure St where
   mode : Mode := .value
@@ -731,23 +733,24 @@ structure Out where
   lastStrKey : Bytes := []
   lastKey : Bytes := []
 
-/-- end of input (`last`) -/
+/-- end of input (`last`). An error raised here carries the mark `z`: its column depends on a stale loop
+variable of the Go fast paths and is not modelled (the harness compares kind and line only). -/
 def finish (s : St) (p : Pos) : Except Err Out :=
-  if !s.starts.isEmpty then .error (p.err .notClosed s.feat s.plus s.lastStrKey s.lastKey)
+  if !s.starts.isEmpty then .error (p.err .notClosed ('z' :: s.feat) s.plus s.lastStrKey s.lastKey)
   else
     match T.fin s.mode with
-    | .absent => .error (p.err .incomplete s.feat s.plus s.lastStrKey s.lastKey)
+    | .absent => .error (p.err .incomplete ('z' :: s.feat) s.plus s.lastStrKey s.lastKey)
     | .n =>
       if cfg.tokenizer then
         match s.handleNumT with
-        | .error k => .error (p.err k s.feat s.plus s.lastStrKey s.lastKey)
+        | .error k => .error (p.err k ('z' :: s.feat) s.plus s.lastStrKey s.lastKey)
         | .ok s' => .ok { docs := [], evs := s'.evs.reverse, feat := s'.feat, plus := s'.plus, lastStrKey := s'.lastStrKey, lastKey := s'.lastKey }
       else
         match s.addIgnore s.num.asNum.toJV with
-        | .error k => .error (p.err k s.feat s.plus s.lastStrKey s.lastKey)
+        | .error k => .error (p.err k ('z' :: s.feat) s.plus s.lastStrKey s.lastKey)
         | .ok s' =>
           match s'.stack.getLast? with
-          | none => .error (p.err (.fault "index out of range [0]") s.feat s.plus s.lastStrKey s.lastKey)
+          | none => .error (p.err (.fault "index out of range [0]") ('z' :: s.feat) s.plus s.lastStrKey s.lastKey)
           | some it => .ok { docs := (it.toJV :: s'.docs).reverse, evs := [], feat := s'.feat, plus := s'.plus, lastStrKey := s'.lastStrKey, lastKey := s'.lastKey }
     | .t =>
       if cfg.tokenizer then
@@ -755,10 +758,10 @@ def finish (s : St) (p : Pos) : Except Err Out :=
         .ok { docs := [], evs := s'.evs.reverse, feat := s'.feat, plus := s'.plus, lastStrKey := s'.lastStrKey, lastKey := s'.lastKey }
       else
         match s.addTokenP s.tmp.reverse with
-        | .error k => .error (p.err k s.feat s.plus s.lastStrKey s.lastKey)
+        | .error k => .error (p.err k ('z' :: s.feat) s.plus s.lastStrKey s.lastKey)
         | .ok s' =>
           match s'.stack.getLast? with
-          | none => .error (p.err (.fault "index out of range [0]") s.feat s.plus s.lastStrKey s.lastKey)
+          | none => .error (p.err (.fault "index out of range [0]") ('z' :: s.feat) s.plus s.lastStrKey s.lastKey)
           | some it => .ok { docs := (it.toJV :: s'.docs).reverse, evs := [], feat := s'.feat, plus := s'.plus, lastStrKey := s'.lastStrKey, lastKey := s'.lastKey }
     | _ => .ok { docs := s.docs.reverse, evs := s.evs.reverse, feat := s.feat, plus := s.plus, lastStrKey := s.lastStrKey, lastKey := s.lastKey }
 
@@ -770,7 +773,8 @@ reset. -/
 def St.entry (cfg : Cfg) (prev : St) : St :=
   { prev with mode := .value, starts := [], stack := [], docs := [], evs := [], tmp := [], feat := [],
               plus := if cfg.keepPlus then prev.plus else false,
-              lastStrKey := if cfg.keepPlus then prev.lastStrKey else [] }
+              lastStrKey := if cfg.keepPlus then prev.lastStrKey else [],
+              exkey := if cfg.keepExkey then prev.exkey else false }
 
 /-- entry point on an instance left in state `prev`: `chunks` are the successive read results (one
 chunk for the `[]byte` entry points) -/
